@@ -35,13 +35,13 @@ var engineAssumptions = []string{
 var checks = []Check{
 	{
 		ID: "C20", Title: "connection and request statistics are conserved", Level: "model_checking",
-		LevelText:   "every history up to depth 4/5 of connects, disconnects, successful / unsupported / invalid / multi-key requests, MOVED and ASK redirections, node down/up, backend resets, connection-limit rejections, host removal, ending either with every client closed or with Stop while connections are open, on the real Redis and TCP processors with their real listeners; counters read through the stats objects as deltas at every quiescent point; the free-running race pass of the redis and TCP processors (unmodified code, -race); Stop racing arriving requests (P1 F1 / P2 F1); a client that goes away with its request in flight; two relayed connections ending at once (plain statistic reads/writes are scheduling points, run-last policy); a pipeline cut off in the middle of a request; upstream connection statistics conserved; a replace-hosts notice; the listener alone with Stop / Drain racing arrivals: downstream counters conserved after Stop (C09/listener)",
+		LevelText:   "every history up to depth 4/5 of connects, disconnects, successful / unsupported / invalid / multi-key requests, MOVED and ASK redirections, node down/up, backend resets, connection-limit rejections, host removal, ending either with every client closed or with Stop while connections are open, on the real Redis and TCP processors with their real listeners; counters read through the stats objects as deltas at every quiescent point; the free-running race pass of the redis and TCP processors (unmodified code, -race); Stop racing arriving requests (P1 F1 / P2 F1); a client that goes away with its request in flight; two relayed connections ending at once (plain statistic reads/writes are scheduling points, run-last policy); a pipeline cut off in the middle of a request; upstream connection statistics conserved; a replace-hosts notice; the listener alone with Stop / Drain racing arrivals: downstream counters conserved after Stop (C09/listener); a successful reply that takes 120 ms",
 		Technique:   "exhaustive enumeration of traffic/fault histories on the real processors under a controlled scheduler",
 		Assumptions: append([]string{"counters are process-wide; each execution compares against a snapshot taken at its own start", "default schedule per operation"}, engineAssumptions...),
 		Jobs: []Job{
 			{Pkg: "proc/tcp", Scenarios: []string{"C20/tcp-concurrent-close"}, Shards: 8, QuickS: 90, ThoroughS: 240},
 			{Pkg: "proc/redis", Scenarios: []string{"C20/stop-racing-request"}, Shards: 16, QuickS: 120, ThoroughS: 240},
-			{Pkg: "proc/redis", Scenarios: []string{"C20/redis"}, Shards: 16, QuickS: 90, ThoroughS: 240},
+			{Pkg: "proc/redis", Scenarios: []string{"C20/redis"}, Shards: 16, QuickS: 150, ThoroughS: 240},
 			{Pkg: "proc/tcp", Scenarios: []string{"C20/tcp"}, Shards: 16, QuickS: 60, ThoroughS: 240},
 			{Pkg: "proc", Scenarios: []string{"C09/listener"}, Shards: 16, QuickS: 120, ThoroughS: 240}, // the listener alone: Stop / Drain racing arrivals, downstream counters conserved after Stop
 			{Pkg: "proc/tcp", Scenarios: []string{"C05/stack-race"}, Race: true, Shards: 1, QuickS: 120, ThoroughS: 240},
@@ -62,7 +62,7 @@ var checks = []Check{
 	},
 	{
 		ID: "C16", Title: "discovery subscriptions track dependencies and survive stream failures", Level: "model_checking",
-		LevelText:   "stateless exploration of all schedules within bounds of the real subscription client (Run with its sender loop, the receiver it spawns, one caller, a fault thread breaking the stream) over a scripted stream factory: every Subscribe/Unsubscribe sequence of length <= 4 over three names, 17-20 distinct Subscribes against the 16-entry queues, queues shrunk to 2; stream creation and Send failing as environment choices; virtual retry timers; every history <= 5/6 of +-x, +-y, outage, back with each step run to quiescence; the dependency stream feeding both subscription clients through its hook; stream failures with gRPC status Canceled / Unavailable",
+		LevelText:   "stateless exploration of all schedules within bounds of the real subscription client (Run with its sender loop, the receiver it spawns, one caller, a fault thread breaking the stream) over a scripted stream factory: every Subscribe/Unsubscribe sequence of length <= 4 over three names, 17-20 distinct Subscribes against the 16-entry queues, queues shrunk to 2; stream creation and Send failing as environment choices; virtual retry timers; every history <= 5/6 of +-x, +-y, outage, back with each step run to quiescence; the dependency stream feeding both subscription clients through its hook; stream failures with gRPC status Canceled / Unavailable; a dependency message naming one service as added and as removed",
 		Technique:   "preemption/delay-bounded stateless schedule exploration of the real goroutines with environment-fault choices",
 		Assumptions: append([]string{"scripted stream with gRPC's send/recv failure coupling (a failed Send breaks the stream, Recv then fails); real gRPC streams are outside the model", "one caller thread (the dependency stream's hook is the only caller in the product)"}, engineAssumptions...),
 		Jobs: []Job{
@@ -74,7 +74,7 @@ var checks = []Check{
 	},
 	{
 		ID: "C06", Title: "TCP: connections go only to current healthy hosts, per the balancing policy", Level: "model_checking",
-		LevelText:   "all schedules (P<=3/4, delays unbounded) of 2-3 threads picking n*k times from 1-3 hosts through the real round-robin balancer; every random outcome and every connection-count assignment for random and least-connection; every history up to depth 3/4 of add / remove (fresh host objects, as the controller builds them) / replace / health marks / connect / disconnect on the real TCP processor under the three policies with every random outcome; a connection arrival racing a membership or health change under all schedules within bounds; late health results for a stale host object, removals announced with the other type, replacement by fresh objects with the same addresses; a relayed connection to a usable member must stay open; arrival racing a replace whose list starts with a backup; a configuration update that keeps the policy (rotation must continue); a member announced again with the other type; sequences of picks of one balancer from different lists; two services' balancers interleaved; no host is counted with more connections than are established; a configuration update that is rejected as a whole (policy change + unusable health check)",
+		LevelText:   "all schedules (P<=3/4, delays unbounded) of 2-3 threads picking n*k times from 1-3 hosts through the real round-robin balancer; every random outcome and every connection-count assignment for random and least-connection; every history up to depth 3/4 of add / remove (fresh host objects, as the controller builds them) / replace / health marks / connect / disconnect on the real TCP processor under the three policies with every random outcome; a connection arrival racing a membership or health change under all schedules within bounds; late health results for a stale host object, removals announced with the other type, replacement by fresh objects with the same addresses; a relayed connection to a usable member must stay open; arrival racing a replace whose list starts with a backup; a configuration update that keeps the policy (rotation must continue); a member announced again with the other type; sequences of picks of one balancer from different lists; two services' balancers interleaved; no host is counted with more connections than are established; a configuration update that is rejected as a whole (policy change + unusable health check); events that leave the usable hosts unchanged do not disturb the rotation; a health result that fails once and passes again between two connections",
 		Technique:   "preemption-bounded schedule exploration + exhaustive history enumeration on the real TCP processor under a controlled scheduler",
 		Assumptions: engineAssumptions,
 		Jobs: []Job{
@@ -148,7 +148,7 @@ var checks = []Check{
 	},
 	{
 		ID: "C07", Title: "the proxy heals after connection loss and topology change", Level: "model_checking",
-		LevelText:   "every history up to depth 5/6 (plus selected deeper convergence histories) over connection resets, node down/up, slot-group moves (including the last group of a master) and refresh rounds on the real proxy stack; requests issued at quiescence and compared with a single-server reference; redirections must stop within two refresh rounds after the first redirection; the same histories one level less deep with nodes known by host name (connection address differs from the backend's key); schedule exploration of simultaneous connection losses and of a layout change + redirection while a refresh answered from the old layout is in flight; a request redirected while the upstream is stopped / its hosts replaced; a restarting node (next connect accepted-and-reset, refused or slow) with requests meanwhile, P2 F2 inside that window; the proxy starting before its cluster (seeds refusing or not answering connects); a replica changing its master; a connection that is lost without any packet (write times out)",
+		LevelText:   "every history up to depth 5/6 (plus selected deeper convergence histories) over connection resets, node down/up, slot-group moves (including the last group of a master) and refresh rounds on the real proxy stack; requests issued at quiescence and compared with a single-server reference; redirections must stop within two refresh rounds after the first redirection; the same histories one level less deep with nodes known by host name (connection address differs from the backend's key); schedule exploration of simultaneous connection losses and of a layout change + redirection while a refresh answered from the old layout is in flight; a request redirected while the upstream is stopped / its hosts replaced; a restarting node (next connect accepted-and-reset, refused or slow) with requests meanwhile, P2 F2 inside that window; the proxy starting before its cluster (seeds refusing or not answering connects); a replica changing its master; a connection that is lost without any packet (write times out); a request that has to be redirected twice (MOVED-MOVED, MOVED-ASK) on three masters",
 		Technique:   "exhaustive enumeration of fault/topology histories on the real proxy stack under a controlled scheduler with virtual time",
 		Assumptions: append([]string{"mini Redis Cluster (ownership changes are atomic cluster-wide; a restarted node keeps its data)", "default schedule per operation; the random seed-host choice rotates fairly"}, engineAssumptions...),
 		Jobs: []Job{
@@ -157,13 +157,13 @@ var checks = []Check{
 			{Pkg: "proc/redis", Scenarios: []string{"C02/stack-race"}, Race: true, Shards: 1, QuickS: 120, ThoroughS: 240},
 			{Pkg: "proc/redis", Scenarios: []string{"C14/topology"}, Shards: 4, QuickS: 60, ThoroughS: 120},      // after a replica changed its master (or a partial-view refresh) requests go where the cluster says
 			{Pkg: "proc/redis", Scenarios: []string{"C09/redis-collect"}, Shards: 8, QuickS: 90, ThoroughS: 240}, // a backend client stopped (host removal) while the hot-key collection runs: backends must stay reachable
-			{Pkg: "proc/redis", Scenarios: []string{"C07/concurrent-loss", "C07/connect-lost", "C07/cold-start"}, Shards: 16, QuickS: 90, ThoroughS: 240},
+			{Pkg: "proc/redis", Scenarios: []string{"C07/concurrent-loss", "C07/connect-lost", "C07/cold-start", "C07/two-hops"}, Shards: 16, QuickS: 90, ThoroughS: 240},
 			{Pkg: "proc/redis", Scenarios: []string{"C07/refresh-in-flight"}, Shards: 16, QuickS: 60, ThoroughS: 240},
 		},
 	},
 	{
 		ID: "C01", Title: "replies come back in request order, exactly one per request", Level: "model_checking",
-		LevelText:   "stateless exploration on the real proxy stack: every pipeline of length <= 2/3 over a 10-request alphabet x every cut of its bytes into two writes (default schedule); every pipeline of length <= 2 (+ selected of length 3) under all schedules within preemption/delay/select bounds; two concurrent connections; a narrow driver of one backend client with three senders deciding per-backend FIFO pairing; a 40-request pipeline exceeding the 32-entry session queue; every unsupported command name over {CR, LF, x} up to length 5 inside a pipeline; oracle: the received bytes parse with an independent codec into exactly one reply per request, reply k being the single-server answer to request k; the first pipeline after start; the backend-client driver of C02 (a request lost with its backend connection is a missing reply); free-running race pass of the whole redis stack; one node answering some milliseconds after the other (all schedules of that moment); every reply shape in the long pipeline; the first request of the pipeline MOVED/ASK-redirected to the late node; a node that hangs for longer than the idle timeout",
+		LevelText:   "stateless exploration on the real proxy stack: every pipeline of length <= 2/3 over a 10-request alphabet x every cut of its bytes into two writes (default schedule); every pipeline of length <= 2 (+ selected of length 3) under all schedules within preemption/delay/select bounds; two concurrent connections; a narrow driver of one backend client with three senders deciding per-backend FIFO pairing; a 40-request pipeline exceeding the 32-entry session queue; every unsupported command name over {CR, LF, x} up to length 5 inside a pipeline; oracle: the received bytes parse with an independent codec into exactly one reply per request, reply k being the single-server answer to request k; the first pipeline after start; the backend-client driver of C02 (a request lost with its backend connection is a missing reply); free-running race pass of the whole redis stack; one node answering some milliseconds after the other (all schedules of that moment); every reply shape in the long pipeline; the first request of the pipeline MOVED/ASK-redirected to the late node; a node that hangs for longer than the idle timeout; connections that come after one that ended with requests still unread in the proxy",
 		Technique:   "preemption/delay-bounded stateless schedule exploration + exhaustive input/fragmentation enumeration on the real proxy stack",
 		Assumptions: engineAssumptions,
 		Jobs: []Job{
@@ -173,7 +173,7 @@ var checks = []Check{
 			{Pkg: "proc/redis", Scenarios: []string{"C02/stack-race"}, Race: true, Shards: 1, QuickS: 120, ThoroughS: 240},
 			{Pkg: "proc/redis", Scenarios: []string{"C02/split-race"}, Race: true, Shards: 1, QuickS: 60, ThoroughS: 240},
 			{Pkg: "proc/redis", Scenarios: []string{"C01/schedules"}, Shards: 16, QuickS: 70, ThoroughS: 240},
-			{Pkg: "proc/redis", Scenarios: []string{"C01/two-conns", "C01/backend-fifo", "C01/long-pipeline", "C01/odd-names", "C01/cold-start", "C01/many-in-flight", "C01/late-reply"}, Shards: 16, QuickS: 60, ThoroughS: 240},
+			{Pkg: "proc/redis", Scenarios: []string{"C01/two-conns", "C01/backend-fifo", "C01/long-pipeline", "C01/odd-names", "C01/cold-start", "C01/many-in-flight", "C01/late-reply", "C01/after-broken"}, Shards: 16, QuickS: 60, ThoroughS: 240},
 		},
 	},
 	{
@@ -196,7 +196,7 @@ var checks = []Check{
 	},
 	{
 		ID: "C13", Title: "transparent compression never changes what clients read back", Level: "model_checking",
-		LevelText:   "bounded-exhaustive enumeration through the real filter chain (4 thresholds x 8 write commands x every {0,x}-string up to length 10 plus patterned values around every threshold x 1-3 filter passes) with the snappy library itself as decompression oracle, and every history up to depth 4/5 of enable/disable, writes, reads, MOVED and ASK redirection on the real proxy stack against a reference map; a compression-settings switch racing a write and its read back (access points on the unsynchronised configuration pointer); removing the compression section; GETSET read-back; multi-value writes; saving sweep through the framing overhead; connections lost between enable/disable/remove and the read; every history enable, write, two events, read; values around the 64 KiB block size of the compression stream",
+		LevelText:   "bounded-exhaustive enumeration through the real filter chain (4 thresholds x 8 write commands x every {0,x}-string up to length 10 plus patterned values around every threshold x 1-3 filter passes) with the snappy library itself as decompression oracle, and every history up to depth 4/5 of enable/disable, writes, reads, MOVED and ASK redirection on the real proxy stack against a reference map; a compression-settings switch racing a write and its read back (access points on the unsynchronised configuration pointer); removing the compression section; GETSET read-back; multi-value writes; saving sweep through the framing overhead; connections lost between enable/disable/remove and the read; every history enable, write, two events, read; values around the 64 KiB block size of the compression stream; every upper/lower-case spelling of every banned command",
 		Technique:   "bounded-exhaustive input enumeration + exhaustive history enumeration on the real proxy stack under a controlled scheduler",
 		Assumptions: append([]string{"github.com/golang/snappy called directly as independent decompression oracle", "mini Redis Cluster stores values byte for byte"}, engineAssumptions...),
 		Jobs: []Job{
@@ -210,17 +210,17 @@ var checks = []Check{
 	},
 	{
 		ID: "C18", Title: "SCAN through the proxy visits every node once and terminates", Level: "model_checking",
-		LevelText:   "every combination of scripted per-node cursor chains (17 shapes per node, 1-3 nodes, cursors up to 2^48-1) iterated from cursor 0 through the real proxy; MATCH/COUNT/TYPE pass-through; every client-supplied cursor class; lossless cursor composition for all power-of-two boundaries; 0 nodes; a slot refresh between any two calls; one two-node iteration under all schedules within bounds (with scheduling points after releasing operations); iterations of 140/300 calls per node with nearly all batches empty; a call answered -CLUSTERDOWN and repeated; a replica in the host list; a SCAN call waiting in a backend client's queue while the session reads the next command (inline and RESP)",
+		LevelText:   "every combination of scripted per-node cursor chains (17 shapes per node, 1-3 nodes, cursors up to 2^48-1) iterated from cursor 0 through the real proxy; MATCH/COUNT/TYPE pass-through; every client-supplied cursor class; lossless cursor composition for all power-of-two boundaries; 0 nodes; a slot refresh between any two calls; one two-node iteration under all schedules within bounds (with scheduling points after releasing operations); iterations of 140/300 calls per node with nearly all batches empty; a call answered -CLUSTERDOWN and repeated; a replica in the host list; a SCAN call waiting in a backend client's queue while the session reads the next command (inline and RESP); a node that hands back the cursor it was asked with before it moves on",
 		Technique:   "exhaustive enumeration of node cursor histories on the real proxy stack under a controlled scheduler",
 		Assumptions: append([]string{"scripted SCAN answers of the mini cluster (well-formed replies; malformed ones belong to C11)"}, engineAssumptions...),
 		Jobs: []Job{{Pkg: "proc/redis", Scenarios: []string{"C18/scan"}, Shards: 16, QuickS: 90, ThoroughS: 240},
 			{Pkg: "proc/redis", Scenarios: []string{"C02/stack-race"}, Race: true, Shards: 1, QuickS: 120, ThoroughS: 240},
 			{Pkg: "proc/redis", Scenarios: []string{"C18/scan-schedules"}, Shards: 16, QuickS: 60, ThoroughS: 240},
-			{Pkg: "proc/redis", Scenarios: []string{"C18/scan-queued"}, Shards: 4, QuickS: 30, ThoroughS: 60}},
+			{Pkg: "proc/redis", Scenarios: []string{"C18/scan-queued", "C18/repeated-cursor"}, Shards: 4, QuickS: 60, ThoroughS: 90}},
 	},
 	{
 		ID: "C14", Title: "only supported commands reach backends; writes only reach masters", Level: "exploration",
-		LevelText:   "exhaustive enumeration of the command-name space through the real proxy on a 2-master x 2-replica mini cluster: the full Redis 5.0 command table (with Redis's own write flags), every name in the proxy's tables and odd names, in three letter cases, with 0-4 arguments, under the three read strategies, with the virtual clock stepped so that the time-based replica choice visits every candidate; node logs compared before/after each command at quiescence; run-time read-strategy changes (histories <= 4/5); keys with an empty hash tag; every pipeline of 2/3 out of 7 commands (read, write, unsupported, local) as RESP, inline or alternating, also one write per command while requests wait for a backend connection; CLUSTERDOWN answers; first keys at the command table's position; key-less EVAL never at a replica (random picks rotate over all hosts); a refresh answered from a partial view; the host list delivered again between commands",
+		LevelText:   "exhaustive enumeration of the command-name space through the real proxy on a 2-master x 2-replica mini cluster: the full Redis 5.0 command table (with Redis's own write flags), every name in the proxy's tables and odd names, in three letter cases, with 0-4 arguments, under the three read strategies, with the virtual clock stepped so that the time-based replica choice visits every candidate; node logs compared before/after each command at quiescence; run-time read-strategy changes (histories <= 4/5); keys with an empty hash tag; every pipeline of 2/3 out of 7 commands (read, write, unsupported, local) as RESP, inline or alternating, also one write per command while requests wait for a backend connection; CLUSTERDOWN answers; first keys at the command table's position; key-less EVAL never at a replica (random picks rotate over all hosts); a refresh answered from a partial view; the host list delivered again between commands; first writes of two connections at once while the nodes share one IP address (P2 / P3 F1)",
 		Technique:   "bounded-exhaustive enumeration of the command space on the real proxy stack under a controlled scheduler",
 		Rule:        "distinct = (name, letter case, argument count, strategy, clock step) combinations issued",
 		Assumptions: append([]string{"Redis 5.0 command table with write flags embedded in the harness (written from the redis-server 5.0 command table)", "mini Redis Cluster node logs"}, engineAssumptions...),
@@ -231,6 +231,7 @@ var checks = []Check{
 			{Pkg: "proc/redis", Scenarios: []string{"C02/stack-race"}, Race: true, Shards: 1, QuickS: 120, ThoroughS: 240},
 			{Pkg: "proc/redis", Scenarios: []string{"C14/topology"}, Shards: 1, QuickS: 60, ThoroughS: 120},
 			{Pkg: "proc/redis", Scenarios: []string{"C14/strategy-update"}, Shards: 16, QuickS: 60, ThoroughS: 240},
+			{Pkg: "proc/redis", Scenarios: []string{"C14/same-machine"}, Shards: 16, QuickS: 90, ThoroughS: 240},
 		},
 	},
 	{
@@ -279,7 +280,7 @@ var checks = []Check{
 	},
 	{
 		ID: "C10", Title: "RESP codec: decode and encode are inverse and independent of chunking", Level: "exploration",
-		LevelText:   "bounded-exhaustive enumeration: every value of the RESP grammar up to depth 2 over boundary texts/integers, every concatenation of small messages under all chunkings (<= 14 bytes) or every placement of <= 2/3 cuts, six reader buffer sizes, against an independent codec; integer fast paths against strconv on every string over a 7-letter alphabet up to length 7/8 and every i in [-70000,70000]; 300 repetitions of one null/empty/nested message followed by other values through one decoder; digit strings around every length threshold and the int64/uint64 limits; inline words with tabs, control characters and Unicode spaces",
+		LevelText:   "bounded-exhaustive enumeration: every value of the RESP grammar up to depth 2 over boundary texts/integers, every concatenation of small messages under all chunkings (<= 14 bytes) or every placement of <= 2/3 cuts, six reader buffer sizes, against an independent codec; integer fast paths against strconv on every string over a 7-letter alphabet up to length 7/8 and every i in [-70000,70000]; 300 repetitions of one null/empty/nested message followed by other values through one decoder; digit strings around every length threshold and the int64/uint64 limits; inline words with tabs, control characters and Unicode spaces; bulk strings around and beyond one megabyte followed by further messages, whole and in pieces",
 		Technique:   "bounded-exhaustive input and chunking enumeration against an independent reference codec",
 		Assumptions: []string{"Go compiler and runtime", "independent RESP codec /verif/sim/resp and strconv as references", "boundary sets chosen from the thresholds in the code (32, 512, 4096, 8192, 32768, 10 digits)"},
 		Jobs: []Job{{Pkg: "proc/redis", Scenarios: []string{"C10/codec"}, Shards: 16, QuickS: 120, ThoroughS: 240},
@@ -287,7 +288,7 @@ var checks = []Check{
 	},
 	{
 		ID: "C12", Title: "key-to-slot mapping equals the Redis Cluster specification", Level: "exploration",
-		LevelText:   "bounded-exhaustive input enumeration through the real routing function: all keys of length 0-3 (every CRC state x every next byte: the induction step for all lengths), two free positions in keys up to 64 bytes, every brace placement over a 4-letter alphabet up to length 9/11, against a bit-by-bit CRC16/XMODEM and the specification's hash-tag rule; slots moved one at a time with redirected GET/SET/EVAL/MGET (a redirection teaches the proxy only about the redirected key's slot); every forwarded command of the command table arrives at the owner of its first key; RESP/inline pipelines whose queued requests must keep their keys (C14/pipelines); an owner that refuses a command once with -CLUSTERDOWN; requests issued at every unsynchronised slot-table access of a running refresh of an unchanged layout (C03/refresh-concurrent)",
+		LevelText:   "bounded-exhaustive input enumeration through the real routing function: all keys of length 0-3 (every CRC state x every next byte: the induction step for all lengths), two free positions in keys up to 64 bytes, every brace placement over a 4-letter alphabet up to length 9/11, against a bit-by-bit CRC16/XMODEM and the specification's hash-tag rule; slots moved one at a time with redirected GET/SET/EVAL/MGET (a redirection teaches the proxy only about the redirected key's slot); every forwarded command of the command table arrives at the owner of its first key; RESP/inline pipelines whose queued requests must keep their keys (C14/pipelines); an owner that refuses a command once with -CLUSTERDOWN; requests issued at every unsynchronised slot-table access of a running refresh of an unchanged layout (C03/refresh-concurrent); a slot-owning master dropped from the host list (keys used before the next refresh)",
 		Technique:   "bounded-exhaustive input enumeration (complete by induction over the CRC state)",
 		Rule:        "each evaluation is a distinct key; all are counted (the 2^24 three-byte keys cover every CRC state x next byte)",
 		Assumptions: []string{"Go compiler and runtime", "reference CRC16/XMODEM and hash-tag rule written from the Redis Cluster specification", "slot read through upstream.chooseHost over an identity slot table"},
@@ -302,7 +303,7 @@ var checks = []Check{
 	},
 	{
 		ID: "C15", Title: "host set and health checking keep a consistent usable view", Level: "model_checking",
-		LevelText:   "explicit-state BFS over every operation sequence on the real host.Set up to depth 5/7 against a reference model in every state; every interleaving (preemption bound 2/3) of 2-3 threads of set operations plus a reader; every check-outcome sequence for all thresholds 0..3 through the real monitor step; batches carrying one address twice; for single batch calls a concurrent reader sees only views that exist before or after the call; hysteresis inside a running TCP service with refused client dials between the checks; the same address removed and re-added with another type in one update, through the controller (C08/histories)",
+		LevelText:   "explicit-state BFS over every operation sequence on the real host.Set up to depth 5/7 against a reference model in every state; every interleaving (preemption bound 2/3) of 2-3 threads of set operations plus a reader; every check-outcome sequence for all thresholds 0..3 through the real monitor step; batches carrying one address twice; for single batch calls a concurrent reader sees only views that exist before or after the call; hysteresis inside a running TCP service with refused client dials between the checks; the same address removed and re-added with another type in one update, through the controller (C08/histories); 2049-4101 hosts (more than the check concurrency) with scripted failing hosts: a result counts for the host it was obtained from",
 		Technique:   "explicit-state BFS over operation histories + preemption-bounded schedule exploration of real goroutines",
 		Rule:        "states = canonical dumps of the real host.Set (three maps, cache, per-object flag/latch) reached by operation sequences; every state non-trivial (differs from all others); schedules = distinct choice sequences",
 		Assumptions: engineAssumptions,
@@ -315,6 +316,7 @@ var checks = []Check{
 			{Pkg: "host", Scenarios: []string{"C15/set-race"}, Race: true, Shards: 1, QuickS: 60, ThoroughS: 240},
 			{Pkg: "proc/internal/hc", Scenarios: []string{"C15/hysteresis"}, Shards: 1, QuickS: 60, ThoroughS: 240},
 			{Pkg: "proc/internal/hc", Scenarios: []string{"C15/monitor-loop"}, Shards: 8, QuickS: 60, ThoroughS: 240},
+			{Pkg: "proc/internal/hc", Scenarios: []string{"C15/hc-many-hosts"}, Shards: 9, QuickS: 150, ThoroughS: 200},
 		},
 	},
 	{
